@@ -18,6 +18,12 @@ fn words<T>(t: &T) -> [usize; 8] {
     w
 }
 
+fn same(a: [usize; 8], b: [usize; 8]) -> bool {
+    let mut ok = true;
+    let mut i = 0;
+    while i < 8 { if a[i] != b[i] { ok = false; } i += 1; }
+    ok
+}
 /// one symbolic call of a `&self`/`&mut self` method of T1, selected by `m`, on anything implementing T1
 macro_rules! call_t1 {
     ($o:expr, $m:expr, $a:expr, $b:expr, $c:expr) => {
@@ -83,7 +89,7 @@ fn p_box_t1() {
     let w0 = words(&obj);
     let r2 = call_t1!(obj, c.m, c.a, c.b, c.c);
     assert!(r1 == r2, "C01 same result as the direct call");
-    assert!(words(&obj) == w0, "C01 frame: the object's words are unchanged by the call");
+    assert!(same(words(&obj), w0), "C01 frame: the object's words are unchanged by the call");
     core::mem::forget(obj);
     assert!(st == s1, "C01 same instance state as after the direct call (exactly one call, right method)");
     let _ = id1;
@@ -103,7 +109,7 @@ fn p_mut_t1() {
         let w0 = words(&obj);
         let r2 = call_t1!(obj, c.m, c.a, c.b, c.c);
         assert!(r1 == r2, "C01 same result as the direct call");
-        assert!(words(&obj) == w0, "C01 frame: the object's words are unchanged by the call");
+        assert!(same(words(&obj), w0), "C01 frame: the object's words are unchanged by the call");
     }
     assert!(imp.id == id1, "C01 the call reached the same instance (its own field updated as by the direct call)");
     core::mem::forget(imp);
@@ -124,7 +130,7 @@ fn p_ref_ts() {
         let w0 = words(&obj);
         let r2 = call_ts!(obj, m, a);
         assert!(r1 == r2, "C01 same result as the direct call");
-        assert!(words(&obj) == w0, "C01 frame");
+        assert!(same(words(&obj), w0), "C01 frame");
     }
     core::mem::forget(imp);
     assert!(st == s1, "C01 same instance state as after the direct call");
@@ -142,7 +148,7 @@ fn p_ref_arc_ts() {
     let w0 = words(&obj);
     let r2 = call_ts!(obj, m, a);
     assert!(r1 == r2, "C01 same result as the direct call");
-    assert!(words(&obj) == w0, "C01 frame");
+    assert!(same(words(&obj), w0), "C01 frame");
     core::mem::forget(obj);
     assert!(st == s1, "C01 same instance state as after the direct call");
 }
@@ -172,7 +178,7 @@ fn p_ctx_box_t1() {
     let w0 = words(&obj);
     let r2 = call_t1!(obj, c.m, c.a, c.b, c.c);
     assert!(r1 == r2, "C01 same result as the direct call");
-    assert!(words(&obj) == w0, "C01 frame");
+    assert!(same(words(&obj), w0), "C01 frame");
     core::mem::forget(obj);
     assert!(st == s1, "C01 same instance state as after the direct call");
 }
@@ -188,7 +194,7 @@ fn p_ctx_mut_t1() {
         let w0 = words(&obj);
         let r2 = call_t1!(obj, c.m, c.a, c.b, c.c);
         assert!(r1 == r2, "C01 same result as the direct call");
-        assert!(words(&obj) == w0, "C01 frame");
+        assert!(same(words(&obj), w0), "C01 frame");
         core::mem::forget(obj);
     }
     assert!(imp.id == id1);
@@ -256,7 +262,7 @@ fn p_grp_mandatory() {
     let w0 = words(&obj);
     let r2 = call_t1!(obj, c.m, c.a, c.b, c.c);
     assert!(r1 == r2, "C01 same result as the direct call");
-    assert!(words(&obj) == w0, "C01 frame");
+    assert!(same(words(&obj), w0), "C01 frame");
     core::mem::forget(obj);
     assert!(st == s1, "C01 same instance state as after the direct call");
 }
